@@ -17,6 +17,14 @@ Definition map_disk (lo : Z) (m : fmap) : disk :=
 Definition retabulate (lo : Z) (m : fmap) (d : disk) (positions : list Z) : fmap :=
   fold_left (fun m x => if x <? lo then m else PositiveMap.add (Z.to_pos (x - lo + 1)) (dk_get d x) m) positions m.
 
+(* dk_write with the same bytes, stored as a table over the previous memory *)
+Definition table_write (mem : disk) (a : Z) (data : list byte) : disk :=
+  let m := fold_left (fun mi b => (PositiveMap.add (Z.to_pos (snd mi + 1)) b (fst mi), snd mi + 1)) data (PositiveMap.empty byte, 0) in
+  let n := snd m in
+  mkdisk true 0 (fun x => if (a <=? x) && (x <? a + n)
+                          then match PositiveMap.find (Z.to_pos (x - a + 1)) (fst m) with Some b => b | None => UNDEF end
+                          else dk_get mem x).
+
 Record rank_state := mkrs { rs_nb : nbstate; rs_slots : list (Z * Z) }.   (* slot -> stored request id *)
 Record world := mkw { w_ranks : list rank_state; w_file : disk; w_hint : swaphint; w_fmt : Z; w_lo : Z; w_map : fmap }.
 
@@ -127,7 +135,17 @@ Definition step (w : world) (o : op) : world * list (list Z) :=
                             | FVarn parts => post_varn (rs_nb rs) k g parts xaddr data flag slot
                             end in
       let posted := negb (id =? NC_REQ_NULL) in
-      (set_rank w rank (mkrs st' (slot_set (rs_slots rs) slot id)),
+      (* speed only: keep the posted bytes in a table instead of behind a list lookup *)
+      let st'' := match k with
+                  | KIget => st'
+                  | _ => if posted then
+                           match find (fun l => l_id l =? id) (put_lead st') with
+                           | Some l => set_mem st' (table_write (st_mem (rs_nb rs)) (l_xaddr l) data)
+                           | None => st'
+                           end
+                         else st'
+                  end in
+      (set_rank w rank (mkrs st'' (slot_set (rs_slots rs) slot id)),
        [[1; ln; rank; rc; id; if posted && flag then 1 else 0]])
   | OWait ln coll args =>
       if coll then
